@@ -248,10 +248,11 @@ func (p *memoryState[T]) AtomicIncWindow(
 		}
 	}
 
-	currentCounter = currentCounter + incrBy
-	if currentCounter > maxAllowedInWindow {
+	// compared before adding, so that a huge increment cannot wrap around
+	if incrBy > maxAllowedInWindow-currentCounter {
 		return 0, windowRestarted, fmt.Errorf("exceeded max allowed in window")
 	}
+	currentCounter = currentCounter + incrBy
 
 	if err := p.setInt64(windowStartKey, windowStart.Unix()); err != nil {
 		log.Trace().Msg("Failed to set window start")
